@@ -10,10 +10,14 @@ THEOREMS = [("FlatModel.Props.C07", t) for t in (
     "FC.C07.accepts_all_default", "FC.C07.reachable_wf", "FC.C07.generations", "FC.C07.generations_batch", "FC.C07.merge_inv",
     "FC.C07.heavy_hitters_one_byte_partial", "FC.C07.heavy_hitters_all_tagged", "FC.C07.all_sources_tagged",
     "FC.C07.all_pushed_tagged")]
+THEOREMS += [("FlatModel.Props.C07MG", "FC.C07." + t) for t in (
+    "est_le_trueCount", "trueCount_le_est_add_D", "accounting", "weight_le_total", "mg_error_bound", "mg_error_bound_pos", "heavy_survives", "heavy_survives_pos", "mg_invariant_generic", "mg_error_bound_generic", "classical_bound_fails", "done_spec", "mergedMG_of_histories", "merged_estimate", "dominant_in_summary", "push_hit_one_byte", "ranked_heavy_hitter_one_byte", "dominant_strings_tagged")]
 PROFILES = {"quick": ["checked"], "thorough": ["checked", "wrapping"], "search": ["checked"]}
 RULE = ("source regions filled from small vocabularies (1..9 strings over 1..4 first bytes, the empty string, skewed counts), "
         "merge_regions over 1..3 sources, pushes of vocabulary words / random strings / single low bytes / extensions / prefixes, "
-        "every push read back, up to three generations and clear; plus >1024 distinct strings per source in the thorough tier; "
+        "every push read back, up to three generations and clear; a scarce-tag regime (ties decided by byte order); a crowded regime (more "
+        "distinct strings than free tags, one dominating by the proved inequality 513*N < (F+1)*(513*C-2*N): must cost one byte); "
+        "plus >1024 distinct strings per source in the thorough tier; "
         "non-trivial when the target region has a non-empty dictionary; distinct by operation and value shapes")
 ASSUMPTIONS = ["Vec::with_capacity(1024).capacity() == 1024 (std)", "the heavy-hitter summary is compared with the model only below its compaction threshold"]
 
@@ -155,6 +159,43 @@ def scarce(rng, cat):
     return b.s
 
 
+def crowded(rng, cat):
+    """more distinct strings than free tags, one of them dominating: by `FC.C07.dominant_strings_tagged` a string with C
+    occurrences among N non-empty pushes into fresh sources gets a tag whenever 513*N < (F+1)*(513*C - 2*N), F the number
+    of byte values never seen as a first byte — however the many strings of count one are ordered. The hot string sorts
+    after all others, so it is the first to lose its tag if counts are not what decides."""
+    b = RB(ID, cat, rng)
+    firsts = [97, 98, 99][: 1 + rng.below(3)]
+    ncold = 256 + rng.below(120)
+    cold = [bytes([firsts[i % len(firsts)]]) + b"%03d" % i for i in range(ncold)]
+    hot = bytes([firsts[-1]]) + b"zz"
+    nsrc = 1 + rng.below(3)
+    free = 256 - len(firsts)
+    c = 1
+    while not 513 * (ncold + c) < (free + 1) * (513 * c - 2 * (ncold + c)):
+        c += 1
+    c += rng.below(4)
+    srcs = ["s%d" % k for k in range(nsrc)]
+    for n in srcs:
+        b.new(n)
+    hot_home = srcs[rng.below(nsrc)] if rng.below(2) else None
+    plan = [(w, srcs[rng.below(nsrc)]) for w in cold] + [(hot, hot_home or srcs[rng.below(nsrc)]) for _ in range(c)]
+    # deterministic interleaving
+    for i in range(len(plan) - 1, 0, -1):
+        j = rng.below(i + 1)
+        plan[i], plan[j] = plan[j], plan[i]
+    for w, n in plan:
+        b.push(n, w, b.form_for(w), sig="codec-default-push", cmp="idx")
+    b.merge("t", srcs)
+    b.s.nontrivial = True
+    for i in range(6):
+        w = hot if i % 2 == 0 else rng.pick(cold)
+        exp = ("pred", cost_one, "dominating string costs one byte") if w == hot else ("prefix", "idx")
+        k, _ = b.push("t", w, b.form_for(w), expect=exp, sig="codec-dominant-one-byte" if w == hot else "codec-unambiguous-refused", cmp="idx")
+        b.read("t", k, sig="codec-read-differs")
+    return b.s
+
+
 def generate(seed, tier):
     rng = Rng(seed * 13 + 7)
     n = {"quick": 250, "thorough": 3000, "search": 800}[tier]
@@ -164,6 +205,8 @@ def generate(seed, tier):
         out.append(script(rng.fork(), cats[i % len(cats)]))
     for i in range({"quick": 6, "thorough": 60, "search": 20}[tier]):
         out.append(scarce(rng.fork(), cats[i % len(cats)]))
+    for i in range({"quick": 6, "thorough": 30, "search": 12}[tier]):
+        out.append(crowded(rng.fork(), cats[i % len(cats)]))
     if tier == "thorough":
         for i in range(6):
             out.append(script(rng.fork(), cats[0], big=True))
